@@ -2,6 +2,8 @@ package vapp
 
 import (
 	"fmt"
+	"hash/fnv"
+	"math/rand"
 	"sort"
 )
 
@@ -93,6 +95,22 @@ func (g *Gen) OlvmStory(id string, blocks int) *Scenario {
 		nonce[c]++
 	}
 	start := h + 2
+	// nested calls (programs "nest" and "inner", deployed by the third account): an inner frame that creates an account,
+	// touches accounts for the first time and fails, while the outer frame goes on and pays.  These steps draw from a
+	// source of their own, so the rest of the history is what it was before they existed.
+	hh := fnv.New64a()
+	hh.Write([]byte(id))
+	r2 := rand.New(rand.NewSource(int64(hh.Sum64() >> 1)))
+	nestC, innerC := "", ""
+	if r2.Intn(3) != 0 {
+		d := eoas[2]
+		innerC = fmt.Sprintf("c:%s:%d", d, nonce[d])
+		add(h+1, A{"from": d, "to": "", "amt": 0, "nonce": nonce[d], "data": "create:inner"}, "honest", "", 300000, 1, nil, "")
+		nonce[d]++
+		nestC = fmt.Sprintf("c:%s:%d", d, nonce[d])
+		add(h+1, A{"from": d, "to": "", "amt": 0, "nonce": nonce[d], "data": "create:nest"}, "honest", "", 300000, 1, nil, "")
+		nonce[d]++
+	}
 	natives := append([]string{}, g.accts...)
 	anyone := func() string {
 		switch g.R.Intn(6) {
@@ -212,6 +230,22 @@ func (g *Gen) OlvmStory(id string, blocks int) *Scenario {
 			if valid {
 				nonce[f]++
 			}
+		}
+		if nestC != "" && h > start && r2.Intn(3) == 0 {
+			f := eoas[r2.Intn(len(eoas))]
+			others := []string{}
+			for _, o := range append(append([]string{}, eoas...), natives...) {
+				if o != f {
+					others = append(others, o)
+				}
+			}
+			tgt := others[r2.Intn(len(others))]
+			third := others[r2.Intn(len(others))]
+			for third == tgt {
+				third = others[r2.Intn(len(others))]
+			}
+			add(h, A{"from": f, "to": nestC, "amt": 1 + r2.Intn(900), "nonce": nonce[f], "data": "nest:" + tgt + "|" + third + "|" + innerC}, "honest", "", 400000, 1, nil, "")
+			nonce[f]++
 		}
 		if g.R.Intn(3) == 0 { // natives pay EVM accounts and contracts
 			g.curH = int64(h)
